@@ -82,7 +82,7 @@ def const_part(ck, wd, thorough):
         cfgp = os.path.join(wd, "GEN_Const_%d.cfg" % sh)
         with open(cfgp, "w") as f:
             f.write('CONSTANTS DEPTH = 3 LEAVES = %s OPS = %s SHARD = %d NSHARDS = %d\nINIT Init\nNEXT Next\nCHECK_DEADLOCK FALSE\n' % (
-                "{2, 7, 1000003}" if thorough else "{2, 7}", '{"+", "-", "*", "//", "/"}' if thorough else '{"+", "-", "*", "//"}', sh, shards))
+                "{2, 7}", '{"+", "-", "*", "//", "/"}' if thorough else '{"+", "-", "*", "//"}', sh, shards))
         return tlc_or_die("GEN_Const.tla", cfg=cfgp, cwd=os.path.join(SPEC, "gen"), workers=2, timeout=3000, heap="4g")
     cases = []
     with cf.ThreadPoolExecutor(max_workers=4) as ex:
